@@ -66,6 +66,10 @@ def compareOp (j : Json) : R Json := do
         if method == "bures" then pure (ofFloat (buresSim C03.eighF (kernelRows k a) (kernelRows k b)))
         else pure (ofFloat (sqBuresMetric C03.eighF (kernelRows k a) (kernelRows k b)))) xs ys)
     pure (obj [("coded", r)])
+  | "neg_riem_dist" =>
+    -- only the parser is modelled (the value comes from a Nelder-Mead search)
+    let r ← resultJson (compareNan (fun _ _ => (pure (Json.str "reduced") : R Json)) xs ys)
+    pure (obj [("coded", r)])
   | _ =>
     let r ← resultJson (compareNan (measureF method) xs ys)
     pure (obj [("coded", r)])
@@ -130,18 +134,24 @@ def poolMethod (s : String) : R PoolMethod :=
   | "corr_cov" => pure .corrCov
   | m => throw s!"unknown pool method {m}"
 
+def poolCopy (s : String) : R PoolCopy :=
+  match s with
+  | "inf" => pure .inferenceUtil
+  | "pool" => pure .pooling
+  | m => throw s!"unknown pool_rdm copy {m}"
+
 /-- `pool_rdm` on a stack with missing entries; also the NaN-free formula on the reduced
     rows put back at the mask of the first RDM (they must agree when the mask is common) -/
 def poolOp (j : Json) : R Json := do
   let pm ← fld j "pm" >>= asStr >>= poolMethod
   let n ← fld j "n" >>= asNat
-  let c ← fld j "c" >>= asFloat
+  let copy ← fld j "copy" >>= asStr >>= poolCopy
   let st ← fld j "stack" >>= stackF
   let sg ← C03.asSigma asFloat (fldD j "sigma" Json.null)
   let V := if pm = .cosineCov ∨ pm = .corrCov then getV n sg else []
-  let coded := pool pm V c st
+  let coded := poolRdm copy pm V st
   let m0 := maskOf (st.headD [])
-  let deleted := scatter m0 (poolRows pm (subBlock m0 V) c (st.map delete))
+  let deleted := scatter m0 (poolRows (effMethod copy pm) (subBlock m0 V) (poolShift copy pm) (st.map delete))
   pure (obj [("coded", ofList ofOptF coded), ("deleted", ofList ofOptF deleted)])
 
 def fitMethod (s : String) : R FitMethod :=
@@ -164,10 +174,9 @@ def regressOp (j : Json) : R Json := do
   let A ← fld j "A" >>= stackF
   let data ← fld j "data" >>= stackF
   let sg ← C03.asSigma asFloat (fldD j "sigma" Json.null)
-  let c ← fld j "c" >>= asFloat
   let cov := fm = .cosineCov ∨ fm = .corrCov
-  -- `pool_rdm(data, method=method)`: no sigma_k is forwarded
-  let y := pool pm (if cov then getV n (SigmaK.none : SigmaK Float) else []) c data
+  -- `pool_rdm(data, method=method)` of util/pooling.py: no sigma_k is forwarded
+  let y := poolRdm .pooling pm (if cov then getV n (SigmaK.none : SigmaK Float) else []) data
   let V := if cov then getV n sg else []
   match fitRegress fm V ridge normalize A y with
   | .error e => pure (obj [("exc", Json.str (errName e))])
